@@ -116,8 +116,14 @@ class _Hash:
     name = 'sha256'
     oid = '2.16.840.1.101.3.4.2.1'
 
-    def __init__(self, data=None):
+    algo = 'sha256'
+
+    def __init__(self, data=None, algo='sha256'):
         self.parts = []
+        self.algo = algo
+        if algo != 'sha256':
+            self.name = algo
+            self.digest_size = {'sha384': 48, 'sha512': 64}.get(algo, 32)
         if data:
             self.update(data)
 
@@ -126,6 +132,9 @@ class _Hash:
         return None
 
     def digest(self):
+        if self.algo != 'sha256':
+            # another ideal function (32 ideal bytes, zero-extended to the nominal size)
+            return _wrap(ideal(self.algo, self.parts) + [0] * (self.digest_size - 32))
         return _wrap(ideal('sha256', self.parts))
 
     def hexdigest(self):
@@ -133,12 +142,12 @@ class _Hash:
         return d.hex()
 
     def copy(self):
-        h = _Hash()
+        h = _Hash(algo=self.algo)
         h.parts = list(self.parts)
         return h
 
     def new(self, data=None):
-        return _Hash(data)
+        return _Hash(data, self.algo)
 
 
 def sha256(data=b'', **kw):
@@ -151,6 +160,30 @@ class SHA256:
     @staticmethod
     def new(data=None):
         return _Hash(data)
+
+
+class SHA384:
+    digest_size = 48
+
+    @staticmethod
+    def new(data=None):
+        return _Hash(data, 'sha384')
+
+
+class SHA512:
+    digest_size = 64
+
+    @staticmethod
+    def new(data=None, truncate=None):
+        return _Hash(data, 'sha512')
+
+
+def sha384(data=b'', **kw):
+    return _Hash(data, 'sha384')
+
+
+def sha512(data=b'', **kw):
+    return _Hash(data, 'sha512')
 
 
 class _Hmac:
@@ -310,6 +343,9 @@ class _Scheme:
 
     def _msg(self, h):
         if isinstance(h, _Hash):
+            if h.algo != 'sha256':
+                # a signature over another digest of the message is a signature of something else
+                return list(('#' + h.algo + '#').encode()) + list(h.parts)
             return list(h.parts)
         return _items(h)
 
@@ -382,13 +418,16 @@ def make_key(kind, ident, param=None):
 # ---------------------------------------------------------------------------------------------
 def _targets():
     import Cryptodome.Hash.SHA256 as rSHA256
+    import Cryptodome.Hash.SHA384 as rSHA384
+    import Cryptodome.Hash.SHA512 as rSHA512
     import Cryptodome.Hash.HMAC as rHMAC
     import Cryptodome.PublicKey.ECC as rECC
     import Cryptodome.PublicKey.RSA as rRSA
     import Cryptodome.Signature.DSS as rDSS
     import Cryptodome.Signature.pkcs1_15 as rP
     import Cryptodome.Signature.eddsa as rE
-    return [(hashlib.sha256, sha256), (rSHA256, SHA256), (rHMAC, HMAC), (rECC, ECC), (rRSA, RSA),
+    return [(hashlib.sha256, sha256), (hashlib.sha384, sha384), (hashlib.sha512, sha512), (rSHA256, SHA256),
+            (rSHA384, SHA384), (rSHA512, SHA512), (rHMAC, HMAC), (rECC, ECC), (rRSA, RSA),
             (rDSS, DSS), (rP, pkcs1_15), (rE, eddsa)]
 
 
